@@ -9,7 +9,7 @@
 (*        b / z = the bytes the code serialised AFTER the call and the size *)
 (*        it advertised: must be Flatten / FlattenedSize of the Message the *)
 (*        documented API semantics give (ApplyStep)                         *)
-(*  {"op":"Vec","m":Message value,"b":..,"z":..,"o":{mini_u,mini_b,micro_u, *)
+(*  {"op":"Vec","m":Message value,"s":script,"b":..,"z":..,"o":{mini_u,..     *)
 (*   micro_b,py_u,py_b}}   C08: C++ bytes of a content and, per other       *)
 (*        implementation, 1 iff it (u) parsed and re-serialised those bytes *)
 (*        to the same bytes / (b) built the content natively to the same    *)
@@ -55,6 +55,7 @@ TCall   == /\ TraceLog[l].op \in Calls
 TVec    == /\ TraceLog[l].op = "Vec"
            /\ LET ln == TraceLog[l] IN
               /\ WellFormed(ln.m) /\ Same(ln, ln.m) /\ Agree(ln.o, ln.m)
+              /\ "s" \in DOMAIN ln => Build(ln.s) = ln.m       \* the (not append-only) script the C++ Message was built by leaves this content
               /\ Common("python", ln.m) => TLCSet(3, TLCGet(3) + 1)
               /\ Common("pynative", ln.m) => TLCSet(4, TLCGet(4) + 1)
            /\ m' = m
@@ -66,6 +67,7 @@ TFrames == /\ TraceLog[l].op = "Frames"
 TPyEcho == /\ TraceLog[l].op = "PyEcho"
            /\ LET ln == TraceLog[l] IN
               /\ WellFormed(ln.m) /\ ln.b = Flatten(ln.m)
+              /\ "s" \in DOMAIN ln => Build(ln.s) = ln.m
               /\ (Common("python", ln.m) /\ ~Dev39(ln.m)) => ln.same = 1 /\ TLCSet(3, TLCGet(3) + 1)
               /\ (Common("python", ln.m) /\ Dev39(ln.m) /\ ln.same # 1) => TLCSet(7, TLCGet(7) + 1)
            /\ m' = m
@@ -77,7 +79,7 @@ Track == TLCSet(1, l) /\ TLCSet(5, m)
 \* accepted iff the line register ran past the end; otherwise say what the specification expects for the first unexplained line
 Expect(ln, mm) == IF ln.op \in Calls THEN LET r == ApplyStep(mm, ln) IN [op |-> ln.op, spec_b |-> Flatten(r.m), spec_z |-> FlattenedSize(r.m), spec_ok |-> r.ok, code_b |-> ln.b, code_z |-> ln.z]
                   ELSE IF ln.op = "New" THEN [op |-> ln.op, spec_b |-> Flatten([what |-> ln.w, fields |-> <<>>]), code_b |-> ln.b]
-                  ELSE IF ln.op \in {"Vec", "PyEcho"} THEN [op |-> ln.op, wellformed |-> WellFormed(ln.m), spec_b |-> Flatten(ln.m), spec_z |-> FlattenedSize(ln.m), code_b |-> ln.b,
+                  ELSE IF ln.op \in {"Vec", "PyEcho"} THEN [op |-> ln.op, wellformed |-> WellFormed(ln.m), script_builds_content |-> IF "s" \in DOMAIN ln THEN Build(ln.s) = ln.m ELSE TRUE, spec_b |-> Flatten(ln.m), spec_z |-> FlattenedSize(ln.m), code_b |-> ln.b,
                                                            python |-> Common("python", ln.m), pynative |-> Common("pynative", ln.m), f38 |-> F38(ln.m), f39 |-> F39(ln.m), outcome |-> IF "o" \in DOMAIN ln THEN ln.o ELSE ln.same]
                   ELSE IF ln.op = "Frames" THEN [op |-> ln.op, spec_stream |-> FrameStream(ln.bs), code_stream |-> ln.st, outcome |-> ln.o]
                   ELSE [op |-> ln.op]
